@@ -300,6 +300,9 @@ class SuperOperator(BasisManaged):
         # dimension of the transformation matrix
         dim = SS.shape[0]
         
+        # the values are written back into the storage
+        self._data = self._storage_for_transform(self._data, SS)
+        
         #
         # Dimension 4 means a single, time independent superoperator 
         #
